@@ -160,7 +160,7 @@ struct Gen {
         f.oti = fld;
         if (fld == "k") {
             f.k = (uint32_t)grid(limk);
-            if (f.codec == C_LDPC && f.k >= 40000 && f.k <= 50000) { f.r = std::max<uint32_t>(f.N1, 3); if (rng.chance(0.5) && f.k + f.r <= 50000) f.r = 50000 - f.k; }
+            if (f.codec == C_LDPC && f.k >= 40000 && f.k <= 140000) { f.r = std::max<uint32_t>(f.N1, 3) + (uint32_t)rng.below(4); if (rng.chance(0.5) && f.k + f.r <= 50000) f.r = 50000 - f.k; }
             if (f.codec != C_LDPC && f.k >= 1 && f.k < limk && rng.chance(0.7)) f.r = (uint32_t)rng.range(1, limk - f.k);
         } else if (fld == "r") {
             uint64_t v = grid(limk);
@@ -214,6 +214,12 @@ struct Gen {
 
     // large blocks are driven with light loss only: dense elimination is cubic in the number of unknowns (DESIGN C09 bounds)
     static bool is_big(const Flow &f) { return (uint64_t)f.k + f.r > 3000; }
+    // Worth generating the rest of the flow? Yes if the configuration is inside the default domain, and also if its only
+    // "defect" is an LDPC k or n above the default limits: a library that advertises larger limits must then work there
+    // (the executor judges every session against the limits that session reports).
+    static bool drivable(const Flow &f, int codec, int m) {
+        return in_domain(codec, m, f.k, f.r, f.E, f.N1, f.pseed, codec == C_LDPC ? 140000 : 0, codec == C_LDPC ? 140000 : 0).inside;
+    }
 
     struct Arrival { int64_t t; uint32_t esi; bool dup; };
 
@@ -295,7 +301,7 @@ struct Gen {
         static const char *unconf[] = {"unconf:esi0", "unconf:esi1", "unconf:esi_max"};
         if (sw.api_faults && rng.chance(0.2)) { emit(t - 2, sid, "FAULT", -1, unconf[rng.below(3)]); cnt("api_faults_planned"); }
         emit(t, sid, "SETP"); t += 7;
-        if (!f.oti.empty() && !in_domain(codec, m, f.k, f.r, f.E, f.N1, f.pseed).inside) {
+        if (!f.oti.empty() && !drivable(f, codec, m)) {
             emit(t + 50, sid, "RELEASE"); t_release_hint = t + 50; return t;
         }
         if (!materialisable(f)) { emit(t + 50, sid, "RELEASE"); t_release_hint = t + 50; return t; }
@@ -342,7 +348,7 @@ struct Gen {
         static const char *unconf[] = {"unconf:esi0", "unconf:esi1", "unconf:esi_max"};
         if (sw.api_faults && rng.chance(0.2)) { put(t + 3, "FAULT", -1, unconf[rng.below(3)]); cnt("api_faults_planned"); }
         put(t + 5, "SETP");
-        bool usable = in_domain(codec, m, f.k, f.r, f.E, f.N1, f.pseed).inside && materialisable(f);
+        bool usable = drivable(f, codec, m) && materialisable(f);
         if (codec == C_2D) usable = materialisable(f);
         if (!usable) { put(t + 40, "RELEASE"); for (auto &e : mine) { e.seq = seq++; evs.push_back(e); } return; }
         if (cb != "none") put(rng.chance(0.2) ? t + 3 : t + 8, "SETCB");      // usually after the parameters, sometimes before
@@ -448,7 +454,7 @@ struct Gen {
         if (rs8 && (prof == "C06" || rng.chance(0.25))) { if (rng.chance(0.5)) { enc_codec = C_RS8; enc_m = 0; } else { enc_codec = C_RS2M; enc_m = 8; } if (enc_codec != codec) cnt("cross_codec_flows"); }
         int64_t t_tx = t0 + 100, rel = 0;
         if (real_sender) t_tx = sender(f, enc_codec, enc_m, t0, sw, false, rel);
-        bool usable = in_domain(codec, m, f.k, f.r, f.E, f.N1, f.pseed).inside || codec == C_2D;
+        bool usable = drivable(f, codec, m) || codec == C_2D;
         if ((prof == "C05" || (codec == C_LDPC && rng.chance(0.1))) && usable && materialisable(f) && f.k <= 4096) {
             // probe sender: identity payload would reveal every equation; here the probe is simply a second, independent
             // encoder session on the same block (its output is compared with the model like any other)
@@ -456,7 +462,7 @@ struct Gen {
             emit(r2 + 50, plan.sessions.back().id, "RELEASE");
         }
         bool skip_last = false;
-        if (codec == C_LDPC && usable && materialisable(f) && (f.N1 % 2 == 0)) {
+        if (codec == C_LDPC && usable && materialisable(f) && (f.N1 % 2 == 0) && !is_big(f)) {
             auto code = h5170(f.k, f.r, f.N1, f.pseed);
             if (!code->extra_entries && rng.chance(0.75)) skip_last = true;
         }
